@@ -631,7 +631,8 @@ def statement_history(rng):
     ops = list(synthetic_collection(rng))
     lat = [n for n, d in ops if d[0] in ("ind", "pop")]
     extra = []
-    for _ in range(rng.randrange(0, 5)):
+    calm = rng.random() < 0.45          # nearly half of the histories stay valid all along: their graph is built and compared too
+    for _ in range(0 if calm else rng.randrange(0, 5)):
         k = rng.randrange(7)
         if k == 0:
             extra.append((rng.choice(["state", "sum", "all", "pop", "ind", "tot", "full", "nll", "attach", "regul", "suff_stats"]), ("data",)))
@@ -652,7 +653,7 @@ def statement_history(rng):
     # model parameters with dedicated sufficient-statistic variables (added through the same `update` as the companions):
     # fresh names, a name shared by two parameters, a companion name, a reserved word - the refusal then comes half-way
     names_now = [n for n, _ in ops]
-    for j in range(rng.randrange(0, 3)):
+    for j in range(0 if calm else rng.randrange(0, 3)):
         z = rng.choice(lat) if lat else "q"
         ded = []
         for _ in range(rng.randrange(0, 3)):
@@ -660,6 +661,11 @@ def statement_history(rng):
             if dn not in [x[0] for x in ded]:
                 ded.append((dn,) + tuple(sorted(rng.sample(names_now, rng.randrange(1, min(3, len(names_now)) + 1)))))
         extra.append((f"par{j}" if rng.random() < 0.8 else f"{z}_std", ("param",) + tuple(ded)))
+    if calm and rng.random() < 0.6:      # a model parameter that is used (not isolated): a derived variable depends on it
+        z = rng.choice(lat) if lat else "q"
+        ops.append((f"{z}_scale", ("param", (f"{z}_sqr", z))))
+        ops.append((f"use_{z}", ("link", f"{z}_scale", f"{z}_sqr")))
+        rng.shuffle(ops)
     for e in extra:
         if e[0] == "front":
             ops.insert(rng.randrange(0, max(1, len(ops) // 2)), e[1])
@@ -700,7 +706,18 @@ def statements_case(chk, env, ops):
         chk.impl_failure(case, f"a name is listed twice: {[k for k in keys if keys.count(k) > 1][:3]}")
     line = "coll ops=" + ("|".join(_op_token(n, d) for n, d in ops) or "-")
     fmt = lambda l: ",".join(l) if l else "_"  # noqa
-    obs = (f"ok={fmt(['1' if o else '0' for o in oks])} keys={fmt([_enc(k) for k in keys])} "
+    # the whole way: from_dict on the collection as it stands (name ranking, checks, order) against `Specs.fromDict`
+    VariablesDAG, LIE = env
+    try:
+        graph = fmt([_enc(k) for k in VariablesDAG.from_dict(nv).sorted_variables_names])
+    except LIE:
+        graph = "err:input"
+    except ValueError:
+        graph = "err:value"
+    except Exception as e:  # noqa
+        graph = f"err:other:{type(e).__name__}"
+    case["graph"] = graph[:10]
+    obs = (f"graph={graph} ok={fmt(['1' if o else '0' for o in oks])} keys={fmt([_enc(k) for k in keys])} "
            f"defs={';'.join(_enc(k) + ':' + fmt([_enc(a) for a in deps]) for k, deps in defs)}")
     case["refused"] = oks.count(False)
     return line, obs, case
@@ -715,6 +732,7 @@ def statements_part(chk, env, n):
         if r is not None:
             lines.append(r[0]); obs.append(r[1]); cases.append(r[2])
             chk.tag("collection-statements", "refused=" + str(min(r[2]["refused"], 3)))
+            chk.tag("collection-graph", r[2]["graph"] if r[2]["graph"].startswith("err") else "ok")
     out = chk.model(lines)
     for cj, a, b in zip(cases, obs, out):
         if a != b:
